@@ -80,9 +80,7 @@ def forbidden_grep():
 
 
 def coq_makefile():
-    if not os.path.exists(os.path.join(COQ, "Makefile")) or \
-            os.path.getmtime(os.path.join(COQ, "Makefile")) < os.path.getmtime(os.path.join(COQ, "_CoqProject")):
-        sh("coq_makefile -f _CoqProject -o Makefile", cwd=COQ, timeout=120)
+    sh(os.path.join(VERIF, "bin", "coqmk"), timeout=120)
 
 
 def coq_build(targets=None, timeout=2400):
@@ -165,7 +163,7 @@ def coq_eval(pid, prelude, check_fn, case_terms, shard=300, tag="c", case_type=N
             if not m:
                 logs.append(f"{path}: cannot parse\n{out[-2000:]}")
                 continue
-            for a, b in re.findall(r"\((\d+)%?n?a?t?,\s*(\d+)%?n?a?t?\)", m.group(1)):
+            for a, b in re.findall(r"\(\s*(\d+)%?n?a?t?,\s*(\d+)%?n?a?t?\s*\)", m.group(1)):
                 bad.append((off + int(a), int(b)))
     for f in os.listdir(GEN):
         if f.startswith(f"{pid}_{tag}_") and not f.endswith(".v"):
